@@ -226,6 +226,37 @@ func c20(c *core.Ctx) {
 		c.Check(ok, "C20.R1", n+"|mirror", pos, fmt.Sprintf("%d updates, global and per-client mirrored in every branch", total), fmt.Sprintf("%s updates the global and the per-client statistics differently in one branch: %s", n, detail))
 	}
 
+	// the gauges move by the delta they are given (add: +delta, dec: -delta = ^(delta-1)), not by a constant
+	for _, n := range []string{"addInflight", "decInflight", "addQueueLen", "decQueueLen"} {
+		f := p.Func("server", "(*statsManager)."+n)
+		var delta ssa.Value
+		for _, pr := range f.Params {
+			if b, ok := pr.Type().Underlying().(*types.Basic); ok && b.Info()&types.IsInteger != 0 {
+				delta = pr
+			}
+		}
+		if delta == nil {
+			c.Undecidedf("C20.R1", n+"|by-delta", fpos(c, f), "%s has no integer delta parameter", n)
+			continue
+		}
+		k, bad := 0, ""
+		ssax.Instrs(f, false, func(_ *ssa.Function, in ssa.Instruction) {
+			call, ok := in.(*ssa.Call)
+			if !ok || ssax.ResolveCallee(&call.Call).Name != "sync/atomic.AddUint64" {
+				return
+			}
+			k++
+			if !ssax.AnyIn(ssax.Backward(call.Call.Args[1]), func(v ssa.Value) bool { return v == delta }) {
+				bad = ipos(c, in)
+			}
+		})
+		pos := fpos(c, f)
+		if bad != "" {
+			pos = bad
+		}
+		c.Check(k > 0 && bad == "", "C20.R1", n+"|by-delta", pos, "the gauge moves by the delta it is given", n+" changes a gauge by an amount that does not depend on its delta argument: a batch of several messages leaving (or entering) at once is counted as one")
+	}
+
 	// ---- R2 copies
 	for _, t := range []string{"PacketBytes", "ConnectionStats", "MessageStats", "PacketStats"} {
 		f := p.Func("server", "(*"+t+").copy")
